@@ -371,6 +371,9 @@ class LorentzEquivalence(Equivalence):
             gamma = np.true_divide(1.0, inv_gamma, out=self._get_out(x))
             return gamma
         elif new_dims == velocity:
+            if x.dtype.kind in "iu" and not self.in_place:
+                # the square of an integer Lorentz factor overflows the integer type
+                x = x.astype("float64")
             gamma2 = np.multiply(x, x, out=self._get_out(x))
             inv_gamma_2 = np.true_divide(1, gamma2, out=self._get_out(x))
             beta2 = np.subtract(1, inv_gamma_2, out=self._get_out(x))
